@@ -216,6 +216,7 @@ def step (st : St) (op : List String) : Option (St × String) :=
   | ["addman", i, t] => do let a ← var? st i; let t ← t.toNat?; pure (unitRes st (addMan st.h a t))
   | ["setcov", i, k] => do let a ← var? st i; let k ← k.toNat?; pure (unitRes st (setCov st.h a k))
   | ["pickle", i] => do let a ← var? st i; pure (newRes st (pickle st.h a))
+  | ["dcopy", i] => do let a ← var? st i; pure (newRes st (stdDeepcopy st.h a))
   | _ => none
 
 def splitOps (toks : List String) : List (List String) :=
